@@ -77,6 +77,77 @@ func TestC08(t *testing.T) {
 		}
 		synctest.Test(t, func(t *testing.T) { c08Overlap(t, run, k, run.Rand(n+k)) })
 	}
+	for k := 0; k < run.N(6, 60); k++ {
+		desc := map[string]any{"idx": k, "kind": "overlapping-first-deploys-then-gate-command"}
+		if !run.Mine(n+5000+k, desc) {
+			continue
+		}
+		synctest.Test(t, func(t *testing.T) { c08FirstDeploys(t, run, k, run.Rand(n+5000+k)) })
+	}
+}
+
+// c08FirstDeploys: "a service's running, paused or stopped state is unaffected by redeploying it",
+// for the very first deploys of a service: two deploys of a new service overlap (one waits long for
+// its targets), the quick one installs the service, the operator stops (pauses) it, then the slow
+// one completes. The service is still stopped (paused) and says what the operator said.
+func c08FirstDeploys(t *testing.T, run *Run, idx int, rng *rand.Rand) {
+	w := NewWorld(t, WorldOpt{})
+	defer w.Close()
+	run.Eval()
+	const svc = "svc"
+	w.AddTarget("quick:80", nil)
+	w.AddTarget("slow:80", func(n int, at time.Duration) ProbeAct {
+		if n == 0 {
+			return ProbeAct{Status: 200, Delay: 1500 * time.Millisecond}
+		}
+		return ProbeAct{Status: 200}
+	})
+	gate := pick(rng, []string{"stop", "pause"})
+	T := time.Second
+	var slowRec, quickRec, gateRec *CmdRec
+	so := server.ServiceOptions{TLSRedirect: true}
+	w.At(T, func() { slowRec = w.Deploy(svc, []string{"slow:80"}, so, DefTO, 5*time.Second, time.Second) })
+	w.At(T+300*time.Millisecond, func() { quickRec = w.Deploy(svc, []string{"quick:80"}, so, DefTO, 5*time.Second, time.Second) })
+	w.At(T+600*time.Millisecond, func() {
+		if gate == "stop" {
+			gateRec = w.Stop(svc, time.Second, "closed by the operator")
+		} else {
+			gateRec = w.Pause(svc, time.Second, 2*time.Second)
+		}
+	})
+	w.GoReq(T+3*time.Second+OffArrival, Req{ID: "probe", Host: "c08.example", Path: "/x"})
+	w.Wait()
+	fail := func(sig, format string, a ...any) {
+		run.Violate(sig, fmt.Sprintf(format, a...), map[string]any{"idx": idx, "gate": gate}, func() []string { return w.Trace(200) })
+	}
+	for _, c := range []*CmdRec{slowRec, quickRec, gateRec} {
+		if c == nil || c.Err != "" || c.Panic != "" {
+			run.Count("first_deploys_command_failed", 1)
+			return // a failing overlapped deploy is C17's subject
+		}
+	}
+	if gateRec.Issue < quickRec.Ret || slowRec.Ret < gateRec.Ret {
+		run.Count("first_deploys_not_in_the_intended_order", 1)
+		return
+	}
+	for _, r := range w.RespLog() {
+		if r.ID != "probe" {
+			continue
+		}
+		want := 503
+		if gate == "pause" {
+			want = 504 // held until its max-pause (2s)
+		}
+		if r.Status != want || r.Target != "" {
+			fail("state-changed-by-overlapping-first-deploy:"+gate, "deploy (slow targets) and deploy (quick) of the new service overlapped; %s was acknowledged at %v, the slow deploy returned at %v; a request at %v got status=%d target=%q, expected %d from the proxy", gate, gateRec.Ret, slowRec.Ret, r.Sent, r.Status, r.Target, want)
+			return
+		}
+		if gate == "stop" && !strings.Contains(string(r.Body), "closed by the operator") {
+			fail("stop-message-lost-by-overlapping-first-deploy", "the 503 after the overlapping first deploys does not carry the operator's message: %q", trunc(string(r.Body), 120))
+			return
+		}
+	}
+	run.Class("first-deploys|" + gate)
 }
 
 // c08Overlap: "resume restores normal forwarding" after stop/pause commands whose drains overlap. A
